@@ -64,6 +64,9 @@
                          of the `Text` span are `<![CDATA[` (`cdataOpenBefore`, the harness oracle's test)
     C17_decode_text_from_source   hence: decoding the `Text` slice, the start mode read off the source, gives the
                          node's value - a statement about the source, the span and the value only
+  AT TOKEN LEVEL, ON EVERY TEXT, accepted or not (Lemmas/LexDelimsLoop.lean):
+    C17_token_delims_document / _fragment / C17_token_delims   the delimiters of every comment, PI and end-tag token
+                         (`Token.Delims`) and the position of every text token (`TextAdj`, `TextFirst`)
   ERRORS ON STRINGS (Lemmas/SpanDescErr.lean): for every string rejected with
     C17_error_invalidTarget   `InvalidTarget(target, span)`: `span` is the target span of a PI token of the text,
                          slices the text to `target`, and `target` is `xml` in some letter case
@@ -89,6 +92,7 @@ import XotModel.Lemmas.SpanDescErr
 import XotModel.Lemmas.SpanDescWitness
 import XotModel.Lemmas.ColonWitness
 import XotModel.Lemmas.ParseErase
+import XotModel.Lemmas.LexDelimsWitness
 
 namespace XotModel.Props
 open XotModel XotModel.Witness
@@ -363,6 +367,59 @@ example : (lexDocument (renderTokens lexWitness)).1[1]? =
     (lexDocument (renderTokens lexWitness)).1[5]? =
       some (.elementEnd (.close ⟨['p'], 22⟩ ⟨['a'], 24⟩) ⟨['<', '/', 'p', ':', 'a', '>'], 20⟩) := by
   rw [lexDocument_render lexWitness (by decide)]; decide
+
+/-! ### The delimiters at TOKEN level, on every input (accepted or not)
+
+`Token.Delims` (Lemmas/LexDelims.lean): a comment token's whole span reads `<!--` body `-->` with the body span 4
+bytes in; a PI token's whole span reads `<?` target, white space, content, `?>` with the target span 2 bytes in and
+the content span right behind the white space (content empty when the token has none); an end-tag token's whole
+span reads `</` name, white space, `>`, the name being `prefix:local` / `local` of the token unless it is written
+`:local`.  `TextAdj`: a text token starts where the whole span of the token in front of it ends, and that span ends
+with `>` (so never behind `<![CDATA[`); `TextFirst`: a text token at the head of the list starts at byte 0.
+The tree-level theorems above (C17_slice_comment_delimiters, C17_slice_pi_delimiters, C17_slice_element_end_name,
+C17_run_mode_from_source) are these facts carried to the nodes of an ACCEPTED text; here they are for every text. -/
+
+/-- C17_token_delims_document: every token `parse` sees, on ANY text. -/
+theorem C17_token_delims_document (s : Str) :
+    (∀ t ∈ (lexDocument s).1, t.Delims) ∧ AdjChain TextAdj (lexDocument s).1 ∧ TextFirst (lexDocument s).1 :=
+  lexDocument_delims s
+
+/-- C17_token_delims_fragment: every token `parse_fragment` sees, on ANY text. -/
+theorem C17_token_delims_fragment (s : Str) :
+    (∀ t ∈ (lexFragment s).1, t.Delims) ∧ AdjChain TextAdj (lexFragment s).1 ∧ TextFirst (lexFragment s).1 :=
+  lexFragment_delims s
+
+/-- Both at once, by mode (`lexMode` is what `parseString` tokenizes with). -/
+theorem C17_token_delims (m : Mode) (s : Str) :
+    (∀ t ∈ (lexMode m s).1, t.Delims) ∧ AdjChain TextAdj (lexMode m s).1 ∧ TextFirst (lexMode m s).1 := by
+  cases m
+  · exact lexDocument_delims s
+  · exact lexFragment_delims s
+
+/-- Non-vacuity OUTSIDE the accepted texts: `<a><!--k--><?pi d?>x</b>` is refused by `parse` (the end tag names
+    `b`), its token list holds a comment, a PI with content, a text and an end-tag token, and the theorem's clauses
+    for them read: `<!--k-->` = `<!--` ++ `k` ++ `-->` with the body at 3 + 4; `<?pi d?>` = `<?` ++ `pi` ++ SP ++ `d`
+    ++ `?>` with the target at 8 + 2 and the content at 8 + 2 + 2 + 1; the text `x` (byte 16) starts where the PI
+    (8..16) ends; `</b>` = `</` ++ `b` ++ `>`. -/
+example : renderTokens delimsRejected =
+    ['<', 'a', '>', '<', '!', '-', '-', 'k', '-', '-', '>', '<', '?', 'p', 'i', ' ', 'd', '?', '>', 'x',
+     '<', '/', 'b', '>'] := by decide
+example : (parseString .document Env.fresh (renderTokens delimsRejected)).err? =
+    some (.invalidCloseTag [] ['b'] ⟨22, 23⟩) := by
+  simp only [parseString, lexMode, lexDocument_render delimsRejected (by decide)]; decide +kernel
+example : (lexDocument (renderTokens delimsRejected)).1 =
+    [.elementStart ⟨[], 0⟩ ⟨['a'], 1⟩ ⟨['<', 'a'], 0⟩, .elementEnd .open ⟨['>'], 2⟩,
+     .comment ⟨['k'], 7⟩ ⟨['<', '!', '-', '-', 'k', '-', '-', '>'], 3⟩,
+     .pi ⟨['p', 'i'], 13⟩ (some ⟨['d'], 16⟩) ⟨['<', '?', 'p', 'i', ' ', 'd', '?', '>'], 11⟩,
+     .text ⟨['x'], 19⟩,
+     .elementEnd (.close ⟨[], 0⟩ ⟨['b'], 22⟩) ⟨['<', '/', 'b', '>'], 20⟩] := by
+  rw [lexDocument_render delimsRejected (by decide)]; decide
+example : ∃ c ∈ (lexDocument (renderTokens delimsRejected)).1, c.isTextTok = true ∧
+    ∃ t ∈ (lexDocument (renderTokens delimsRejected)).1, (∃ a b, t = .comment a b) ∧ t.Delims :=
+  ⟨.text ⟨['x'], 19⟩, by rw [lexDocument_render delimsRejected (by decide)]; decide, rfl,
+   .comment ⟨['k'], 7⟩ ⟨['<', '!', '-', '-', 'k', '-', '-', '>'], 3⟩,
+   by rw [lexDocument_render delimsRejected (by decide)]; decide, ⟨_, _, rfl⟩,
+   ((C17_token_delims_document _).1 _ (by rw [lexDocument_render delimsRejected (by decide)]; decide))⟩
 
 /-! ### Slicing the source with a recorded span yields the item; decoding the slice yields the value
 
